@@ -202,6 +202,9 @@ class C20(ProgProp):
             t1 = [e for e in t1 if e[0] != "closed"]
         c1 = self._after(case, r1["B"], case["options"]) if case.get("canary") else None
         out = []
+        if c0 is not None and case["options"].get("KEEP_DEPENDENCIES"):
+            c0 = (c0[0], [e for e in c0[1] if e[0] != "closed"])
+            c1 = (c1[0], [e for e in c1[1] if e[0] != "closed"])
         if c0 is not None and c0 != c1:
             if c0[0] != c1[0]:
                 out.append(("outcome", "with options %s the next computation on the same scheduler gives %r, with defaults %r" % (sorted(case["options"]), c1[0], c0[0])))
